@@ -267,8 +267,14 @@ func (d *db) ProcessWrite(b *proto.WriteRequest, commitOffset int64, timestamp u
 		}
 	}
 
+	if vhook.Enabled {
+		vhook.At("db.apply.before", d.kv, commitOffset)
+	}
 	if err := batch.Commit(); err != nil {
 		return nil, err
+	}
+	if vhook.Enabled {
+		vhook.At("db.apply.after", d.kv, commitOffset)
 	}
 
 	if notifications != nil {
@@ -475,9 +481,17 @@ func (d *db) UpdateTerm(newTerm int64, options TermOptions) error {
 		return err
 	}
 
+	if vhook.Enabled {
+		vhook.At("db.term.committed", d.kv, newTerm)
+	}
+
 	// Since the term change is not stored in the WAL, we must force
 	// the database to flush, in order to ensure the term change is durable
-	return d.kv.Flush()
+	err = d.kv.Flush()
+	if vhook.Enabled {
+		vhook.At("db.term.flushed", d.kv, newTerm)
+	}
+	return err
 }
 
 func (d *db) ReadTerm() (term int64, options TermOptions, err error) {
